@@ -218,6 +218,24 @@ Example text_ordered_ex :
   | Ok (vs, _) => forallb text_ordered vs | Err _ => true end = false.
 Proof. vm_compute. split; reflexivity. Qed.
 
+(* The scanner's nesting counter.  scanner.go keeps the depth in a field that ReadArray and
+   ReadDict increment on entry and decrement on every way out; the model passes the depth as an
+   argument, which is the same thing only if the field is back at its old value after every
+   value.  Under that discipline (Scan.run_counter over the entries and exits of a value's text)
+   the counter is restored after every value within the limits, and therefore after any number of
+   values read one after another by one scanner: the width of a sequence or container never adds
+   to the depth. *)
+Theorem depth_restored : forall L os d,
+  forallb (wf_obj L d) os = true ->
+  run_counter L (concat (map events os)) d = Some d /\
+  (forall o, In o os -> run_counter L (events o) d = Some d).
+Proof. exact depth_restored_lemma. Qed.
+Print Assumptions depth_restored.
+
+Example depth_restored_wide :
+  run_counter std_limits (concat (map events (repeat (OArr [OArr []; ODict [([75], OArr [])]; ONilDict]) 1000))) 1 = Some 1.
+Proof. vm_compute. reflexivity. Qed.
+
 (* What the writer accepts.  types.go refuses what the scanner would not read back
    (Wf.fmt_ok / format_checked: nesting, array and dictionary sizes, name and string lengths,
    reference numbers, with the translated limits).  For values of the Go types (go_value: int64,
